@@ -88,8 +88,15 @@ Else ==
 Stmt ==
     /\ AllowStmt /\ stack # <<>> /\ Top.nStmt = 0
     /\ stack' = Append(Pop, [Top EXCEPT !.nStmt = 1])
-    /\ Line([op |-> "stmt"], env)
+    /\ Line([op |-> "stmt", form |-> "plain"], env)
     /\ UNCHANGED <<env, nifs>>
+
+\* an unrelated statement carrying an if / unless MODIFIER (`z = 1 if true`) directly in front
+\* of a top-level conditional: it touches neither x nor y
+TopStmt ==
+    /\ AllowStmt /\ stack = <<>> /\ prog # <<>> /\ prog[Len(prog)].line.op # "stmt" /\ nifs < MaxIfs
+    /\ \E form \in {"if-modifier", "unless-modifier"} : Line([op |-> "stmt", form |-> form], env)
+    /\ UNCHANGED <<env, stack, nifs>>
 
 \* `end`: the pre-conditional types are back
 IfExit ==
@@ -103,7 +110,7 @@ Next ==
     \/ \E tx \in InitX, ty \in InitY : Start(tx, ty)
     \/ \E kind \in {"if", "unless"}, c \in Conds : IfEnter(kind, c)
     \/ \E c \in Conds : Elsif(c)
-    \/ Else \/ Stmt \/ IfExit
+    \/ Else \/ Stmt \/ TopStmt \/ IfExit
 
 Init == env = [x |-> {}, y |-> {}] /\ stack = <<>> /\ prog = <<>> /\ nifs = 0
 
